@@ -200,7 +200,40 @@ pub fn main(args: &[String]) {
         }
     }
     w.finish();
-    let meta = Json::obj(vec![("cases", Json::n(n_cases as f64)), ("inputs", Json::u(inputs.len())), ("corpus", Json::u(n_corpus)), ("fixtures", Json::u(n_fix)), ("generated", Json::u(n_gen)), ("after_gc", Json::n(n_gc as f64)), ("with_inserted_instructions", Json::n(n_edit as f64)), ("with_added_function", Json::n(n_added as f64)), ("pairs_checked", Json::n(n_pairs as f64)), ("function_ranges_checked", Json::n(n_funcs as f64)),
+    let n_leb = leb_cases(out_dir, &mut r, if n_gen > 100 { 4000 } else { 400 }, &mut viol);
+    let meta = Json::obj(vec![("leb_cases", Json::u(n_leb)), ("cases", Json::n(n_cases as f64)), ("inputs", Json::u(inputs.len())), ("corpus", Json::u(n_corpus)), ("fixtures", Json::u(n_fix)), ("generated", Json::u(n_gen)), ("after_gc", Json::n(n_gc as f64)), ("with_inserted_instructions", Json::n(n_edit as f64)), ("with_added_function", Json::n(n_added as f64)), ("pairs_checked", Json::n(n_pairs as f64)), ("function_ranges_checked", Json::n(n_funcs as f64)),
         ("outside_modelled_universe", Json::n(n_unmodelled as f64)), ("samples", Json::Arr(samples.into_iter().map(|s| Json::Str(s.chars().take(900).collect())).collect())), ("oracle_violations", Json::Arr(viol))]);
     std::fs::write(format!("{}/meta.json", out_dir), meta.to_string()).unwrap();
+}
+
+/// LEB128 as wasm-encoder writes it (the bytes of every count, size field and integer immediate) and as wasmparser reads it,
+/// against Model/Leb.v: boundaries of every group count plus random values; unsigned (u32 / u64) and signed (i32 / i64).
+fn leb_cases(out_dir: &str, r: &mut Rng, n_rand: usize, viol: &mut Vec<Json>) -> usize {
+    use wasm_encoder::Encode;
+    let header = "From WV Require Import Model.Leb Run.LebRun.\nOpen Scope N_scope.";
+    let mut w = CaseWriter::new(out_dir, "leb", header, "lebcase", "check_leb", 400);
+    let mut us: Vec<u64> = vec![0, 1, u32::MAX as u64, u64::MAX];
+    for k in 1..10u32 { let b = 1u64 << (7 * k); us.extend([b - 2, b - 1, b, b + 1]); }
+    for k in [31u32, 32, 33, 62, 63] { let b = 1u64 << k; us.extend([b - 1, b, b + 1]); }
+    for _ in 0..n_rand { let bits = 1 + r.usize(64) as u32; let x = ((r.below(1 << 32) as u64) << 32 | r.below(1 << 32) as u64) >> (64 - bits); us.push(x); }
+    let list = |b: &[u8]| format!("[{}]", b.iter().map(|x| x.to_string()).collect::<Vec<_>>().join(";"));
+    let mut n = 0;
+    for &u in &us {
+        let mut b = vec![]; u.encode(&mut b);
+        if u <= u32::MAX as u64 { let mut b32 = vec![]; (u as u32).encode(&mut b32); if b32 != b { viol.push(Json::obj(vec![("class", Json::s("leb-u32-u64-differ")), ("props", Json::s("C11")), ("what", Json::s(format!("{}: u32 and u64 encodings differ", u)))])); } }
+        let mut rd = wasmparser::BinaryReader::new(&b, 0, wasmparser::WasmFeatures::all());
+        let back = rd.read_var_u64().ok(); let rest = rd.bytes_remaining();
+        w.push(&format!("LebU {}%N {} {}", u, list(&b), match back { Some(v) if rest == 0 => format!("(Some {}%N)", v), _ => "None".into() })); n += 1;
+    }
+    let mut is: Vec<i64> = vec![0, -1, 1, i32::MAX as i64, i32::MIN as i64, i64::MAX, i64::MIN];
+    for k in 1..10u32 { let b = 1i64 << (7 * k - 1); is.extend([b - 1, b, b + 1, -b - 1, -b, -b + 1]); }
+    for _ in 0..n_rand { let bits = 1 + r.usize(64) as u32; let x = (((r.below(1 << 32) as u64) << 32 | r.below(1 << 32) as u64) as i64) >> (64 - bits); is.push(x); }
+    for &i in &is {
+        let mut b = vec![]; i.encode(&mut b);
+        if i >= i32::MIN as i64 && i <= i32::MAX as i64 { let mut b32 = vec![]; (i as i32).encode(&mut b32); if b32 != b { viol.push(Json::obj(vec![("class", Json::s("leb-i32-i64-differ")), ("props", Json::s("C11")), ("what", Json::s(format!("{}: i32 and i64 encodings differ", i)))])); } }
+        let mut rd = wasmparser::BinaryReader::new(&b, 0, wasmparser::WasmFeatures::all());
+        let back = rd.read_var_i64().ok(); let rest = rd.bytes_remaining();
+        w.push(&format!("LebS ({})%Z {} {}", i, list(&b), match back { Some(v) if rest == 0 => format!("(Some ({})%Z)", v), _ => "None".into() })); n += 1;
+    }
+    w.finish(); n
 }
